@@ -155,7 +155,12 @@ class _BaseLayout(MaildirLayout[_MaildirT], metaclass=ABCMeta):
     def _split(cls, name: str, delimiter: str) -> _Parts:
         if name == 'INBOX':
             return []
-        return name.split(delimiter)
+        parts = name.split(delimiter)
+        for part in parts:
+            if part in ('', '.', '..') or os.sep in part or '\0' in part:
+                # would resolve to the inbox itself or outside of it
+                raise FileNotFoundError(name)
+        return parts
 
     @classmethod
     def _join(cls, parts: _Parts, delimiter: str) -> str:
